@@ -743,3 +743,37 @@ package leveldb
 //@   safety off
 //@   requires seq <= keyMaxSeq
 //@   ensures [C20:result-is-a-private-copy] isnil(value) || freshbase(value)
+
+// The key and value an iterator exposes live in the iterator's own buffers (grown in place or reallocated), never
+// in a buffer of the merged sources: they stay intact until the iterator is moved.
+// Assumed contract of the merged source iterator: moving or reading it writes byte buffers only (its own), it
+// does not reach back into the iterator that drives it.
+//@ interface iterator.Iterator.Next
+//@   effects M$uint8
+//@ interface iterator.Iterator.Prev
+//@   effects M$uint8
+//@ interface iterator.Iterator.Valid
+//@   effects M$uint8
+//@ interface iterator.Iterator.Key
+//@   effects M$uint8
+//@ interface iterator.Iterator.Value
+//@   effects M$uint8
+//@ interface iterator.Iterator.Error
+//@   effects M$uint8
+// seek sampling only counts bytes and may trigger a compaction; it does not touch the iterator's buffers (frame
+// assumed: the call graph over function values is too coarse to show it)
+//@ func (*dbIter).sampleSeek
+//@   trusted
+//@   modifies i.samplingGap
+//@ func (*dbIter).next
+//@   props C20
+//@   safety off
+//@   loop 1
+//@     invariant [C20:own-buffers] (sameblock(i.key, old(i.key)) || freshbase(i.key) || sameslice(i.key, old(i.key)) || isnil(i.key)) && (sameblock(i.value, old(i.value)) || freshbase(i.value) || sameslice(i.value, old(i.value)) || isnil(i.value))
+//@   ensures [C20:own-buffers] (sameblock(i.key, old(i.key)) || freshbase(i.key) || sameslice(i.key, old(i.key)) || isnil(i.key)) && (sameblock(i.value, old(i.value)) || freshbase(i.value) || sameslice(i.value, old(i.value)) || isnil(i.value))
+//@ func (*dbIter).prev
+//@   props C20
+//@   safety off
+//@   loop 1
+//@     invariant [C20:own-buffers] (sameblock(i.key, old(i.key)) || freshbase(i.key) || sameslice(i.key, old(i.key)) || isnil(i.key)) && (sameblock(i.value, old(i.value)) || freshbase(i.value) || sameslice(i.value, old(i.value)) || isnil(i.value))
+//@   ensures [C20:own-buffers] (sameblock(i.key, old(i.key)) || freshbase(i.key) || sameslice(i.key, old(i.key)) || isnil(i.key)) && (sameblock(i.value, old(i.value)) || freshbase(i.value) || sameslice(i.value, old(i.value)) || isnil(i.value))
